@@ -19,8 +19,8 @@ VERIF = os.path.dirname(os.path.dirname(os.path.abspath(__file__)))
 SPEC = os.path.join(VERIF, "spec")
 HARNESS = os.path.join(VERIF, "harness")
 BUILD = os.path.join(VERIF, "build")
-EVID = os.path.join(VERIF, "evidence")
-OUT = os.path.join(VERIF, "out")
+EVID = os.environ.get("VERIF_EVID_DIR", os.path.join(VERIF, "evidence"))
+OUT = os.environ.get("VERIF_OUT_DIR", os.path.join(VERIF, "out"))
 NCPU = os.cpu_count() or 4
 GUARD = "IVYKIS_VERIF"
 
@@ -392,4 +392,38 @@ def save_replay(pid, obj, tag=None):
     p = os.path.join(OUT, "replay", "%s-%s.json" % (pid, tag or sha(s)[:10]))
     with open(p, "w") as f:
         f.write(s + "\n")
+    return p
+
+
+# ---------------------------------------------------------------- traces
+def validate_traces(trace_files, scratch, module="TraceCore.tla", cfg="TraceCore.cfg",
+                    nproc=None, timeout=900):
+    """Run TLC trace validation on each ndjson file (one JVM per file, in
+    parallel).  Returns (verdicts, total_events): verdicts is a list of dicts
+    {id, why, viols, seen, file}.  Raises MachineryError if TLC did not
+    consume a trace completely."""
+    def one(tf):
+        nlines = sum(1 for _ in open(tf))
+        if nlines == 0:
+            return [], 0
+        r = tlc(module, cfg, scratch, workers=1, env={"TRACE": tf}, timeout=timeout, xmx="3g")
+        if r["distinct"] != nlines + 1 or r["violated"]:
+            raise MachineryError("trace %s not fully consumed: %d lines, %d states, violated=%s\n%s" %
+                                 (tf, nlines, r["distinct"], r["violated"], r["out"][-3000:]))
+        vs = []
+        for s in printed(r["out"], "VERDICT"):
+            v = json.loads(s)
+            v["file"] = tf
+            vs.append(v)
+        return vs, nlines
+    res = parallel(one, trace_files, nproc or NCPU)
+    verdicts = [v for vs, _n in res for v in vs]
+    return verdicts, sum(n for _vs, n in res)
+
+
+def save_replay_text(pid, text, ext="scr"):
+    os.makedirs(os.path.join(OUT, "replay"), exist_ok=True)
+    p = os.path.join(OUT, "replay", "%s-%s.%s" % (pid, sha(text)[:10], ext))
+    with open(p, "w") as f:
+        f.write(text)
     return p
